@@ -1,13 +1,17 @@
 (* nas.go / nas_generated.go: dispatch on the extended protocol discriminator and the
-   message type, over the translated switch tables (Gen/GenDispatch.v). *)
-From NV Require Import Lib.Base Codec.Lang Codec.Def Codec.Sem Gen.GenMsgs Gen.GenTypes Gen.GenDispatch.
+   message type, over a record of translated switch tables (instantiated in Codec/GenDefs.v). *)
+From NV Require Import Lib.Base Codec.Lang Codec.Def Codec.Sem Codec.LoopLemmas.
 From Coq Require Import String.
 Open Scope N_scope.
 
-Definition defs : list (string * msgdef) := map (fun g => (g_name g, def_of nas_types g)) all_msgs.
-
-Definition find_def (n : string) : option msgdef :=
-  match find (fun p => String.eqb (fst p) n) defs with Some p => Some (snd p) | None => None end.
+Record tables := mktables {
+  t_defs : list (string * msgdef);
+  t_gmm_dec : disp_table; t_gsm_dec : disp_table;
+  t_gmm_enc : disp_table; t_gsm_enc : disp_table;
+  t_gmm_hlen : N; t_gsm_hlen : N;
+  t_gmm_tix : N; t_gsm_tix : N;
+  t_epd_gmm : N; t_epd_gsm : N;
+  t_plain_dec_shape : bool; t_plain_enc_shape : bool }.
 
 (* the Go nas.Message after a successful decode / before an encode:
    which part (GMM/GSM), the header view, and the populated body slots by name *)
@@ -28,72 +32,11 @@ Definition enc_lookup (t : disp_table) (ty : N) : option string :=
   | _ => None
   end.
 
-Definition part_decode (gmm : bool) (bs : bytes) : outcome plainmsg :=
-  let hlen := N.to_nat (if gmm then gmm_header_len else gsm_header_len) in
-  let tix := N.to_nat (if gmm then gmm_type_index else gsm_type_index) in
-  let tbl := if gmm then disp_GmmMessageDecode else disp_GsmMessageDecode in
-  match take hlen bs with
-  | None => Err                                   (* binary.Read of the header fails *)
-  | Some (h, _) =>
-      match dec_lookup tbl (nth tix h 0) with
-      | None => Err                               (* default: unknown message type *)
-      | Some name =>
-          match find_def name with
-          | None => Panic
-          | Some d => m <- decode_def d bs ;; Ok (mkpm gmm h [(name, m)])
-          end
-      end
-  end.
-
-(* PlainNasDecode; None models a nil *[]byte *)
-Definition plain_decode (obs : option bytes) : outcome plainmsg :=
-  match obs with
-  | None => Err
-  | Some [] => Err
-  | Some (b :: t) =>
-      if b =? epd_gmm then part_decode true (b :: t)
-      else if b =? epd_gsm then part_decode false (b :: t)
-      else Err
-  end.
-
 Definition strip_prefix (p s : string) : option string :=
   if String.prefix p s then Some (String.substring (String.length p) (String.length s - String.length p) s) else None.
 
-Definition part_encode (gmm : bool) (pm : plainmsg) : outcome bytes :=
-  let tix := N.to_nat (if gmm then gmm_type_index else gsm_type_index) in
-  let tbl := if gmm then disp_GmmMessageEncode else disp_GsmMessageEncode in
-  match enc_lookup tbl (nth tix (pm_header pm) 0) with
-  | None => Err                                   (* default: unknown message type *)
-  | Some callee =>
-      match strip_prefix "Encode" callee with
-      | None => Panic
-      | Some name =>
-          match find (fun p => String.eqb (fst p) name) (pm_bodies pm), find_def name with
-          | Some (_, m), Some d => encode_def d m
-          | _, _ => Panic                         (* nil body pointer: method call dereferences nil *)
-          end
-      end
-  end.
-
-(* PlainNasEncode on a Message whose GmmMessage / GsmMessage pointer is set (or neither) *)
-Definition plain_encode (m : option plainmsg) : outcome bytes :=
-  match m with
-  | None => Err
-  | Some pm => part_encode (pm_gmm pm) pm
-  end.
-
-(* ---------- well-formedness of the translated tables ---------- *)
-
 Fixpoint nodupN (l : list N) : bool :=
   match l with [] => true | x :: t => negb (existsb (N.eqb x) t) && nodupN t end.
-
-Definition dec_item_ok (it : disp_item) : bool :=
-  match it with
-  | DispDec _ fld ctor callee =>
-      String.eqb ctor ("New" ++ fld) && String.eqb callee ("Decode" ++ fld) &&
-      match find_def fld with Some _ => true | None => false end
-  | _ => false
-  end.
 
 Definition item_type (it : disp_item) : N :=
   match it with DispDec n _ _ _ | DispEnc n _ => n | DispUnknown => 0 end.
@@ -104,29 +47,82 @@ Definition enc_matches_dec (e d : disp_item) : bool :=
   | _, _ => false
   end.
 
-Definition tables_ok (dec enc : disp_table) : bool :=
-  d_prologue dec && d_default_err dec && d_prologue enc && d_default_err enc &&
-  forallb dec_item_ok (d_items dec) && nodupN (map item_type (d_items dec)) &&
-  eqb_list enc_matches_dec (d_items enc) (d_items dec).
+Section WithTables.
+  Variable T : tables.
 
-(* the header octets are the first hlen mandatory one-octet slots of every message of that part *)
-Definition header_slots_ok (hlen : nat) (d : msgdef) : bool :=
-  Nat.leb hlen (List.length d) &&
-  forallb (fun sd => sd_mand sd && negb (sd_haslen sd) &&
-                     match sd_val sd with VOctet => true | _ => false end) (firstn hlen d).
+  Definition find_def (n : string) : option msgdef :=
+    match find (fun p => String.eqb (fst p) n) (t_defs T) with Some p => Some (snd p) | None => None end.
 
-Definition part_headers_ok (gmm : bool) : bool :=
-  let hlen := N.to_nat (if gmm then gmm_header_len else gsm_header_len) in
-  let tbl := if gmm then disp_GmmMessageDecode else disp_GsmMessageDecode in
-  forallb (fun it => match it with
-                     | DispDec _ fld _ _ => match find_def fld with
-                                            | Some d => header_slots_ok hlen d | None => false end
-                     | _ => false end) (d_items tbl).
+  Definition part_decode (gmm : bool) (bs : bytes) : outcome plainmsg :=
+    let hlen := N.to_nat (if gmm then t_gmm_hlen T else t_gsm_hlen T) in
+    let tix := N.to_nat (if gmm then t_gmm_tix T else t_gsm_tix T) in
+    let tbl := if gmm then t_gmm_dec T else t_gsm_dec T in
+    match take hlen bs with
+    | None => Err                                   (* binary.Read of the header fails *)
+    | Some (h, _) =>
+        match dec_lookup tbl (nth tix h 0) with
+        | None => Err                               (* default: unknown message type *)
+        | Some name =>
+            match find_def name with
+            | None => Panic
+            | Some d => m <- decode_def d bs ;; Ok (mkpm gmm h [(name, m)])
+            end
+        end
+    end.
 
-Definition dispatch_ok : bool :=
-  tables_ok disp_GmmMessageDecode disp_GmmMessageEncode &&
-  tables_ok disp_GsmMessageDecode disp_GsmMessageEncode &&
-  plain_decode_shape && plain_encode_shape &&
-  (gmm_header_len =? 3) && (gsm_header_len =? 4) && (gmm_type_index =? 2) && (gsm_type_index =? 3) &&
-  (epd_gmm =? 126) && (epd_gsm =? 46) &&
-  part_headers_ok true && part_headers_ok false.
+  (* PlainNasDecode; None models a nil *[]byte *)
+  Definition plain_decode (obs : option bytes) : outcome plainmsg :=
+    match obs with
+    | None => Err
+    | Some [] => Err
+    | Some (b :: t) =>
+        if b =? t_epd_gmm T then part_decode true (b :: t)
+        else if b =? t_epd_gsm T then part_decode false (b :: t)
+        else Err
+    end.
+
+  Definition part_encode (gmm : bool) (pm : plainmsg) : outcome bytes :=
+    let tix := N.to_nat (if gmm then t_gmm_tix T else t_gsm_tix T) in
+    let tbl := if gmm then t_gmm_enc T else t_gsm_enc T in
+    match enc_lookup tbl (nth tix (pm_header pm) 0) with
+    | None => Err                                   (* default: unknown message type *)
+    | Some callee =>
+        match strip_prefix "Encode" callee with
+        | None => Panic
+        | Some name =>
+            match find (fun p => String.eqb (fst p) name) (pm_bodies pm), find_def name with
+            | Some (_, m), Some d => encode_def d m
+            | _, _ => Panic                         (* nil body pointer: method call dereferences nil *)
+            end
+        end
+    end.
+
+  (* PlainNasEncode on a Message whose GmmMessage / GsmMessage pointer is set (or neither) *)
+  Definition plain_encode (m : option plainmsg) : outcome bytes :=
+    match m with
+    | None => Err
+    | Some pm => part_encode (pm_gmm pm) pm
+    end.
+
+  (* ---------- well-formedness of the translated tables ---------- *)
+
+  Definition dec_item_ok (it : disp_item) : bool :=
+    match it with
+    | DispDec _ fld ctor callee =>
+        String.eqb ctor ("New" ++ fld) && String.eqb callee ("Decode" ++ fld) &&
+        match find_def fld with Some _ => true | None => false end
+    | _ => false
+    end.
+
+  Definition tables_ok (dec enc : disp_table) : bool :=
+    d_prologue dec && d_default_err dec && d_prologue enc && d_default_err enc &&
+    forallb dec_item_ok (d_items dec) && nodupN (map item_type (d_items dec)) &&
+    eqb_list enc_matches_dec (d_items enc) (d_items dec).
+
+  Definition dispatch_ok : bool :=
+    tables_ok (t_gmm_dec T) (t_gmm_enc T) &&
+    tables_ok (t_gsm_dec T) (t_gsm_enc T) &&
+    t_plain_dec_shape T && t_plain_enc_shape T &&
+    (t_gmm_hlen T =? 3) && (t_gsm_hlen T =? 4) && (t_gmm_tix T =? 2) && (t_gsm_tix T =? 3) &&
+    (t_epd_gmm T =? 126) && (t_epd_gsm T =? 46).
+End WithTables.
